@@ -44,14 +44,24 @@ def qr(x, /, *, mode="reduced") -> QRResult:
     if x.dtype not in _floating_dtypes:
         raise TypeError("Only floating-point dtypes are allowed in qr")
 
-    if x.numblocks[1] > 1:
-        raise ValueError(
-            "qr only supports tall-and-skinny (single column chunk) arrays. "
-            "Consider rechunking so there is only a single column chunk."
-        )
+    _check_tall_and_skinny(x, "qr")
 
     Q, R, _, _, _ = tsqr(x)
     return QRResult(Q, R)
+
+
+def _check_tall_and_skinny(x, name):
+    if x.numblocks[1] > 1:
+        raise ValueError(
+            f"{name} only supports tall-and-skinny (single column chunk) arrays. "
+            "Consider rechunking so there is only a single column chunk."
+        )
+    if any(c < x.shape[1] for c in x.chunks[0]):
+        raise ValueError(
+            f"{name} requires every row chunk (including the last) to have at least "
+            f"as many rows as there are columns ({x.shape[1]}), but row chunks are {x.chunks[0]}. "
+            "Consider rechunking."
+        )
 
 
 def tsqr(x, compute_svd=False, finalize_svd=True):
@@ -222,12 +232,17 @@ def svd(x, /, *, full_matrices=True) -> SVDResult:
     if full_matrices:
         raise ValueError("Cubed arrays only support using full_matrices=False")
 
+    if x.ndim != 2:
+        raise ValueError("svd requires x to have 2 dimensions.")
+
     nb = x.numblocks
     # TODO: optimize case nb[0] == nb[1] == 1
-    if nb[0] > nb[1]:
+    if nb[0] > nb[1] or (nb[0] == nb[1] and x.shape[0] >= x.shape[1]):
+        _check_tall_and_skinny(x, "svd")
         _, _, U, S, Vh = tsqr(x, compute_svd=True)
         truncate = x.shape[0] < x.shape[1]
     else:
+        _check_tall_and_skinny(x.T, "svd (of the transposed array)")
         _, _, Vht, S, Ut = tsqr(x.T, compute_svd=True)
         U, S, Vh = Ut.T, S, Vht.T
         truncate = x.shape[0] > x.shape[1]
